@@ -994,6 +994,19 @@ func (env *SpecEnv) call(x *ast.CallExpr) tv {
 			}
 		}
 		sfail("unchanged: no field %s", fid.Name)
+	case "arrayof": // arrayof(s): the contents of the backing array of slice s
+		a := env.eval(x.Args[0])
+		st0, ok := a.Ty.Underlying().(*types.Slice)
+		if !ok {
+			sfail("arrayof: not a slice")
+		}
+		return tv{T: sel(ex.arrComp(env.heap, st0.Elem()), sliceBase(a.T))}
+	case "soff": // soff(s): offset of slice s in its backing array
+		a := env.eval(x.Args[0])
+		if a.T.So != sSlice {
+			sfail("soff: not a slice")
+		}
+		return tv{T: sliceOff(a.T), Ty: types.Typ[types.Int]}
 	case "bits": // the bit pattern of a value (floats are carried as their IEEE bits)
 		a := env.needTerm(env.eval(x.Args[0]))
 		return tv{T: a.T}
